@@ -563,6 +563,10 @@ class Ev:
                 return self.overloaded(e, [v], depth)
             raise Unsupported("negation of " + vfmt(v))
         if e["op"] == "Not":
+            if isinstance(v, Sym) and v.tag and v.tag[0] == "not" and isinstance(v.tag[1], tuple) and v.tag[1][:1] == ("sym",):
+                return Sym(*v.tag[1][1:])          # double negation
+            if isinstance(v, Sym) and v.tag[:1] == ("bool",):
+                return Sym("bool", "false" if v.tag[1] == "true" else "true")
             return Sym("not", vkey(v))
         raise Unsupported("unary " + e["op"])
 
